@@ -190,7 +190,8 @@ bool Exec::edit_invalid(Obj &o, const Fault &f) {
 		if (what == "addcols") { QArr ob(3), lo(3), up(3); for (int q = 0; q < 3; q++) mpq_set_ui(up.at(q), 3, 1); rv = mpq_QSadd_cols(p, 3, cnt, beg, ind, t.p() + 3, ob.p(), lo.p(), up.p(), nm); }
 		else { QArr rh(3); char ss[3] = {'L', 'G', 'E'}; rv = mpq_QSadd_rows(p, 3, cnt, beg, ind, (const mpq_t *)t.at(3), (const mpq_t *)rh.p(), ss, nm); }
 	} else if (what == "newcol" || what == "addcol" || what == "addcols") {
-		if (modn(v, 2) == 0 && n > 0) { w = what + ":dupname"; const char *nm = M.cols[modn(v / 2, n)].name.c_str(); rv = what == "newcol" ? mpq_QSnew_col(p, t.at(0), t.at(1), t.at(2), nm) : mpq_QSadd_col(p, 0, 0, 0, t.at(0), t.at(1), t.at(2), nm); }
+		if (modn(v, 2) == 0 && n > 0) { w = what + ":dupname";   // every name the problem has, starting anywhere: a rejected call changes nothing, so the sweep goes on until one is accepted
+			for (int q = 0; q < n; q++) { const char *nm = M.cols[modn(v / 2 + q, n)].name.c_str(); rv = what == "newcol" ? mpq_QSnew_col(p, t.at(0), t.at(1), t.at(2), nm) : mpq_QSadd_col(p, 0, 0, 0, t.at(0), t.at(1), t.at(2), nm); if (rv == 0) break; } probe("c07.dupname_sweep"); }
 		else if (what != "newcol") { w = what + ":badrow"; if (!row_is_bad(badr)) { T("  skip"); return false; } int ind[1] = {badr};
 			if (what == "addcol") rv = mpq_QSadd_col(p, 1, ind, t.p() + 3, t.at(0), t.at(1), t.at(2), strf("inv%d", step).c_str());
 			else { int cc[2] = {0, 1}, cb[2] = {0, 0}; QArr ob(2), lo(2), up(2); mpq_set_ui(up.at(0), 3, 1); mpq_set_ui(up.at(1), 3, 1); std::string n0 = strf("inva%d", step), n1 = strf("invb%d", step); const char *nm[2] = {n0.c_str(), n1.c_str()};
@@ -198,7 +199,8 @@ bool Exec::edit_invalid(Obj &o, const Fault &f) {
 		else { T("  skip"); return false; }
 	} else if (what == "newrow" || what == "addrow" || what == "addrows") {
 		int k = modn(v, 3);
-		if (k == 0 && m > 0) { w = what + ":dupname"; const char *nm = M.rows[modn(v / 3, m)].name.c_str(); rv = what == "newrow" ? mpq_QSnew_row(p, t.at(0), 'L', nm) : mpq_QSadd_row(p, 0, 0, 0, (const mpq_t *)t.at(0), 'L', nm); }
+		if (k == 0 && m > 0) { w = what + ":dupname";
+			for (int q = 0; q < m; q++) { const char *nm = M.rows[modn(v / 3 + q, m)].name.c_str(); rv = what == "newrow" ? mpq_QSnew_row(p, t.at(0), 'L', nm) : mpq_QSadd_row(p, 0, 0, 0, (const mpq_t *)t.at(0), 'L', nm); if (rv == 0) break; } probe("c07.dupname_sweep"); }
 		else if (k == 1) { w = what + ":badsense"; static const char bs[] = {'X', 'N', 'l', '<', 1}; char s = bs[modn(v / 3, 5)]; std::string nm = strf("inv%d", step); rv = what == "newrow" ? mpq_QSnew_row(p, t.at(0), s, nm.c_str()) : mpq_QSadd_row(p, 0, 0, 0, (const mpq_t *)t.at(0), s, nm.c_str()); }
 		else if (what != "newrow") { if (!col_is_bad(badc)) { T("  skip"); return false; } int ind[1] = {badc}; std::string nm = strf("inv%d", step);
 			if (what == "addrow") { w = "addrow:badcol"; rv = mpq_QSadd_row(p, 1, ind, (const mpq_t *)t.at(3), (const mpq_t *)t.at(0), 'L', nm.c_str()); }
